@@ -94,7 +94,21 @@ class YowNetworkLayer(YowLayer, ConnectionCallbacks):
         self.state = self.__class__.STATE_CONNECTING
         endpoint = self.getProp(self.__class__.PROP_ENDPOINT)
         logger.info("Connecting to %s:%s" % endpoint)
-        self._dispatcher.connect(endpoint)
+        try:
+            self._dispatcher.connect(endpoint)
+        except Exception as e:
+            if self.state == self.__class__.STATE_CONNECTING:
+                # the attempt failed inside the request, before a connection existed (the name did not resolve,
+                # the network is unreachable): give up what the dispatcher had set up and report the attempt as
+                # failed, so that the layer does not stay "connecting" and take every later connect request for
+                # a duplicate
+                logger.error(e)
+                try:
+                    self._dispatcher.disconnect()
+                except Exception:
+                    pass
+                self.onConnectionError(e)
+            raise
 
     def destroyConnection(self, reason=None):
         if self.state == self.__class__.STATE_DISCONNECTED:
